@@ -1026,6 +1026,148 @@ def layout_section(repo, work):
     return L
 
 
+def mname(n):
+    n = norm(n)
+    return n.get('name') or n.get('member')
+
+
+def args_section(repo, work):
+    """argument arrays of calls / iterated expressions: CallExpr::arg/begin/end, BasicIteratedExpr::begin/end,
+    ExprIterator, BasicIteratedExprBuilder::AddArg, BeginIterated<ExprType>, BeginCall, Impl::args[n]"""
+    L = []
+    call = dump(repo, 'mp::CallExpr', work)
+    iterd = dump(repo, 'mp::BasicIteratedExpr', work)
+    its = dump(repo, 'ExprIterator', work)
+    fac = dump(repo, 'mp::BasicExprFactory', work)
+
+    def concrete(docs, name):
+        ms = [m for d in docs for m in find_all(d, name) if m.get('kind') == 'CXXMethodDecl' and body_of(m) is not None]
+        return [m for m in ms if 'Dependent' not in json.dumps(m) and 'Unresolved' not in json.dumps(m)]
+
+    def ret_expr(m):
+        st = [x for x in kids(body_of(m)) if not is_noop(x)]
+        if len(st) != 1 or st[0].get('kind') != 'ReturnStmt':
+            raise TranslateError('%s is not a single return' % m.get('name'))
+        return norm(kids(st[0])[0])
+
+    def is_args(e):
+        e = norm(e)
+        return e.get('kind') == 'MemberExpr' and e.get('name') == 'args'
+
+    # CallExpr::arg(index): Create<Expr>(impl()->args[<index>])
+    ms = concrete(call, 'arg')
+    if len(ms) != 1:
+        raise TranslateError('CallExpr::arg: expected one definition')
+    r = ret_expr(ms[0])
+    sub = norm(kids(r)[1]) if r.get('kind') == 'CallExpr' and callee_name(r)[0] == 'Create' else {}
+    if sub.get('kind') != 'ArraySubscriptExpr' or not is_args(kids(sub)[0]):
+        raise TranslateError('CallExpr::arg is not `Create<Expr>(impl()->args[<index>])`')
+    pid = params(ms[0])[0]['id']
+    L += ['/-- `CallExpr::arg(k)` reads `args[…]` -/', 'def callArgRead (k : Nat) : Nat := %s' % nat_expr(kids(sub)[1], lambda e: is_ref_to(e, pid))]
+    # begin()/end(): args + <offset>
+    for cls, docs, pref in (('CallExpr', call, 'call'), ('BasicIteratedExpr', iterd, 'iter')):
+        offs = {}
+        for nm in ('begin', 'end'):
+            vals = set()
+            for m in concrete(docs, nm):
+                r = ret_expr(m)
+                if is_args(r):
+                    vals.add('0')
+                elif r.get('kind') == 'BinaryOperator' and r.get('opcode') == '+' and is_args(kids(r)[0]):
+                    mc = member_call(kids(r)[1])
+                    if not (mc and mc[1] == 'num_args' and not mc[3]):
+                        raise TranslateError('%s::%s: offset is not num_args()' % (cls, nm))
+                    vals.add('0 + n')
+                else:
+                    raise TranslateError('%s::%s is not `iterator(impl()->args [+ num_args()])`' % (cls, nm))
+            if len(vals) != 1:
+                raise TranslateError('%s::%s: %d different shapes among the instantiations' % (cls, nm, len(vals)))
+            offs[nm] = vals.pop()
+        L += ['/-- `%s::begin()` / `end()` point at `args + …` (n = `num_args()`) -/' % cls,
+              'def %sBeginOffset : Nat := %s' % (pref, offs['begin']), 'def %sEndOffset (n : Nat) : Nat := %s' % (pref, offs['end'])]
+    # ExprIterator: operator* reads *ptr_, operator++ does ++ptr_
+    der, stp = set(), set()
+    for m in concrete(its, 'operator*'):
+        r = ret_expr(m)
+        a = norm(kids(r)[1]) if r.get('kind') == 'CallExpr' and callee_name(r)[0] == 'Create' else {}
+        if not (a.get('kind') == 'UnaryOperator' and a.get('opcode') == '*' and mname(kids(a)[0]) == 'ptr_'):
+            raise TranslateError('ExprIterator::operator* is not `Create<ExprType>(*ptr_)`')
+        der.add('0')
+    for m in concrete(its, 'operator++'):
+        st = kids(body_of(m))
+        if params(m):
+            continue   # postfix form: not used by the visitors
+        inc = norm(st[0])
+        if not (len(st) == 2 and inc.get('kind') == 'UnaryOperator' and inc.get('opcode') == '++' and mname(kids(inc)[0]) == 'ptr_'):
+            raise TranslateError('ExprIterator::operator++ is not `++ptr_; return *this;`')
+        stp.add('1')
+    if der != {'0'} or stp != {'1'}:
+        raise TranslateError('ExprIterator operators not found')
+    L += ['/-- `ExprIterator::operator*` reads `ptr_[…]`, `operator++` advances `ptr_` by … cells -/', 'def iterDerefOffset : Nat := 0', 'def iterStep : Nat := 1']
+    # builder: impl_->args[arg_index_++] = arg.impl()
+    ms = [m for d in fac for m in find_all(d, 'AddArg') if m.get('kind') == 'CXXMethodDecl' and body_of(m) is not None]
+    if len(ms) != 1:
+        raise TranslateError('BasicIteratedExprBuilder::AddArg: expected one definition')
+    st = [norm(x) for x in kids(body_of(ms[0])) if not is_noop(x)]
+    ok = len(st) == 1 and st[0].get('kind') == 'BinaryOperator' and st[0].get('opcode') == '='
+    if ok:
+        lhs = norm(kids(st[0])[0])
+        ok = lhs.get('kind') == 'ArraySubscriptExpr' and mname(kids(lhs)[0]) == 'args'
+        ix = norm(kids(lhs)[1]) if ok else {}
+        ok = ok and ix.get('kind') == 'UnaryOperator' and ix.get('opcode') == '++' and ix.get('isPostfix') and mname(kids(ix)[0]) == 'arg_index_'
+        rhs = norm(kids(st[0])[1])
+        ok = ok and rhs.get('kind') == 'CallExpr' and mname(kids(rhs)[0]) == 'impl' and is_ref_to(kids(norm(kids(rhs)[0]))[0], params(ms[0])[0]['id'])
+    if not ok:
+        raise TranslateError('BasicIteratedExprBuilder::AddArg is not `impl_->args[arg_index_++] = arg.impl();`')
+    L += ['/-- the k-th `AddArg` writes `args[…]` (`arg_index_++`: the value before the increment) -/', 'def argWrite (k : Nat) : Nat := k']
+    # Impl::args[n]
+    ninl = set()
+    for docs in (call, iterd):
+        for r in [r for d in docs for r in find_all(d, 'Impl') if r.get('kind') == 'CXXRecordDecl' and r.get('completeDefinition')]:
+            for f in kids(r):
+                if f.get('kind') == 'FieldDecl' and f.get('name') == 'args':
+                    m = re.search(r'\[(\d+)\]$', f.get('type', {}).get('qualType', ''))
+                    ninl.add(int(m.group(1)) if m else -1)
+    if len(ninl) != 1 or -1 in ninl:
+        raise TranslateError('Impl::args is not declared `T *args[n]` uniformly: %s' % sorted(ninl))
+    L += ['/-- `CallExpr::Impl::args` / `BasicIteratedExpr::Impl::args` are declared `const Impl *args[n]` -/', 'def argsInline : Nat := %d' % ninl.pop()]
+    # BeginIterated<ExprType>(kind, num_args): size = sizeof(Expr::Impl*); Allocate<ExprType>(kind, val(size * (num_args - 1))); impl->num_args = num_args
+    ms = [m for d in fac for m in find_all(d, 'BeginIterated') if m.get('kind') == 'CXXMethodDecl' and body_of(m) is not None
+          and len([x for x in kids(body_of(m)) if not is_noop(x)]) > 1]
+    try:
+        assert len(ms) == 1
+        m = ms[0]
+        st = [x for x in kids(body_of(m)) if not is_noop(x)]
+        p = params(m)
+        v = kids(st[0])[0]
+        so = norm(kids(v)[0])
+        assert so.get('kind') == 'UnaryExprOrTypeTraitExpr' and so.get('name') == 'sizeof' and so.get('argType', {}).get('qualType', '').endswith('*')
+        alloc = norm(kids(kids(st[1])[0])[0])
+        valcall = [a for a in kids(alloc)[1:] if norm(a).get('kind') == 'CallExpr' and callee_name(norm(a))[0] == 'val']
+        nm, a = op_call(kids(norm(valcall[0]))[1])
+        sub = norm(a[1])
+        assert nm == 'operator*' and is_ref_to(a[0], v['id']) and sub.get('opcode') == '-' and is_ref_to(kids(sub)[0], p[1]['id']) and int(norm(kids(sub)[1])['value']) >= 0
+        minus = int(norm(kids(sub)[1])['value'])
+        asg = norm(st[2])
+        assert asg.get('opcode') == '=' and mname(kids(asg)[0]) == 'num_args' and is_ref_to(kids(asg)[1], p[1]['id'])
+    except (AssertionError, IndexError, KeyError, TypeError, ValueError):
+        raise TranslateError('BeginIterated<ExprType> is not `size = sizeof(Expr::Impl*); impl = Allocate<ExprType>(kind, val(size * (num_args - c))); impl->num_args = num_args`')
+    L += ['/-- `BeginIterated<ExprType>(kind, n)` allocates `sizeof(Impl)` plus this many bytes (may be negative; a pointer has 8 bytes)',
+          'and stores `n`; `BeginCall` goes through it -/', 'def argsExtraBytes (n : Int) : Int := 8 * (n - %d)' % minus]
+    # BeginCall: builder = BeginIterated<CallExpr>(CALL, num_args); builder.impl_->func = func.impl_
+    ms = [m for d in fac for m in find_all(d, 'BeginCall') if m.get('kind') == 'CXXMethodDecl' and body_of(m) is not None]
+    try:
+        assert len(ms) == 1
+        st = [x for x in kids(body_of(ms[0])) if not is_noop(x)]
+        p = params(ms[0])
+        c = norm(kids(kids(st[0])[0])[0])
+        assert c.get('kind') == 'CallExpr' and norm(kids(c)[0]).get('kind') == 'UnresolvedMemberExpr' and norm(kids(c)[1])['referencedDecl']['name'] == 'CALL' and is_ref_to(kids(c)[2], p[1]['id'])   # clang does not print the name of the unresolved member (BeginIterated<CallExpr>)
+    except (AssertionError, IndexError, KeyError, TypeError):
+        raise TranslateError('BeginCall does not start with `builder = <member template>(expr::CALL, num_args)`')
+    L.append('')
+    return L
+
+
 def main():
     repo, out, work = sys.argv[1], sys.argv[2], sys.argv[3]
     os.makedirs(work, exist_ok=True)
@@ -1187,7 +1329,7 @@ def main():
     helpers = {}
     for clsname, wanted in (('Function', ('operator==', 'operator!=', 'name')),
                             ('PLTerm', ('num_breakpoints', 'arg')),
-                            ('CallExpr', ('function', 'num_args', 'arg')),
+                            ('CallExpr', ('function', 'num_args')),
                             ('StringLiteral', ('value',))):
         def records(n):
             if n.get('kind') == 'CXXRecordDecl' and n.get('name') == clsname and n.get('completeDefinition'):
@@ -1256,7 +1398,7 @@ def main():
         L.append('/-- normalised syntax tree of `mp::%s` (include/mp/expr.h) -/' % key.replace('_', '::', 1))
         L.append('def helperShape_%s : Sx :=\n%s' % (key, sx_lean(t)))
         L.append('')
-    L += ['/-! ### memory layout the accessors and the factory agree on -/'] + layout_section(repo, work)
+    L += ['/-! ### memory layout the accessors and the factory agree on -/'] + layout_section(repo, work) + ['/-! ### argument arrays of calls and iterated expressions -/'] + args_section(repo, work)
     L.append('end MpVerif.Gen.C18')
     text = '\n'.join(L) + '\n'
     if '--freeze' in sys.argv:
